@@ -396,7 +396,9 @@ PROPS["C10"] = {
                   "[n] over every list producer and JSON arrays; json(text)[k1][k2].. navigation compared structurally. Every call is issued with constant "
                   "arguments (exercising the fold path at plan time) and with row-dependent arguments (argument stored in the pair and read back through "
                   "value / key / int(value) / split(value, ',') / json(value)[..]), in row and in batch mode, as a select field and - for comparable results - "
-                  "inside WHERE compared with the literal of the documented value. rapid adds random texts, numbers, part lists, vectors and documents.",
+                  "inside WHERE compared with the literal of the documented value. rapid adds random texts, numbers, part lists, vectors and documents; a third leg "
+                  "runs 23 call templates in which EVERY argument depends on the row (separator, positions, numbers taken from the key) over stores of 2-7 "
+                  "pairs so that one chunk holds rows with different arguments.",
     "level_note": "Trusted: lib/refeval.go re-implementations. substr follows the README wording [start, end) with 0 <= start <= end. int()/float() of "
                   "non-numeric text, float-to-text rendering, overflow, out-of-range [n], missing JSON members and case mapping of non-ASCII text are outside the domain.",
     "rule": "enumerated (function, argument tuple, form) cases (each once) + rapid samples. Non-trivial = the case is inside the documented domain "
@@ -405,6 +407,7 @@ PROPS["C10"] = {
     "legs": [
         {"test": "TestC10Pools", "kind": "enum", "quick": {"shards": 2}, "thorough": {"shards": 2}},
         {"test": "TestC10Sampled", "kind": "rapid", "quick": {"checks": 15000, "shards": 3}, "thorough": {"checks": 200000, "shards": 12}},
+        {"test": "TestC10Chunks", "kind": "rapid", "quick": {"checks": 6000, "shards": 3}, "thorough": {"checks": 100000, "shards": 8}},
     ],
     "min_nontrivial": {"quick": 5000, "thorough": 100000},
 }
@@ -440,13 +443,16 @@ PROPS["C12"] = {
                   "different length) placed first, in the middle or last; REMOVE symmetrical. The finished plan is polled with a random word over {Next, Batch}. "
                   "Store afterwards = prior overwritten in order by the reference-evaluated pairs; the log shows exactly one Put (n=1) or one BatchPut with the n "
                   "pairs in order - or no storage call at all and an error when any expression fails; building the plan touches no storage; later polls return "
-                  "end-of-stream and add nothing; a following select * where key = k sees the model's value. Histories as in C11.",
+                  "end-of-stream and add nothing; a following select * where key = k sees the model's value. A metamorphic leg (no reference evaluator; key "
+                  "expressions may mention `key` too) demands that `put p1, .., pn` issues exactly the writes of the n statements `put p1`; ..; `put pn` "
+                  "executed in order, so no pair can depend on its neighbours. Histories as in C11.",
     "level_note": "Numbers are integers (float rendering is unspecified). Empty keys are outside the domain.",
     "rule": "rapid single statements + histories. Non-trivial = a duplicate key, a value that depends on key, a REMOVE of an existing key, or a failing "
             "expression after a succeeding one; distinct = distinct (statement, prior state, polls).",
     "assumptions": COMMON_ASSUMPTIONS,
     "legs": [
         {"test": "TestC12", "kind": "rapid", "quick": {"checks": 15000, "shards": 3}, "thorough": {"checks": 150000, "shards": 10}},
+        {"test": "TestC12Independent", "kind": "rapid", "quick": {"checks": 6000, "shards": 2}, "thorough": {"checks": 100000, "shards": 6}},
         {"test": "TestC12History", "kind": "rapid", "quick": {"checks": 1000, "shards": 2, "steps": 25, "shrink": "15s"}, "thorough": {"checks": 15000, "shards": 6, "steps": 30}},
     ],
     "min_nontrivial": {"quick": 3000, "thorough": 50000},
